@@ -309,6 +309,8 @@ class Ctx:
     # -- model checking of the design
     def model_check(self, name, root, consts, invariants, spec="MSpec", view=None, expect_violation=None,
                     workers=None, timeout=900, constraint=None, deadlock=False, **kw):
+        # the thorough tier may run on a loaded machine: its TLC runs get four times the time before they count as stuck
+        timeout = timeout if self.quick else timeout * 4
         r = run_tlc(self.sub("mc_" + name), root, consts, spec=spec, invariants=invariants, view=view,
                     workers=workers or (4 if self.quick else NCPU), timeout=timeout, constraint=constraint,
                     deadlock=deadlock, **kw)
@@ -336,6 +338,7 @@ class Ctx:
             constraint=None, keep=60000):
         """TLC prints one CASE line per behaviour; at most `keep` of them (a uniform, seeded sample beyond that) are
         parsed and returned -- generators may print millions."""
+        timeout = timeout if self.quick else timeout * 4
         r = run_tlc(self.sub("gen_" + name), root, consts, spec=spec, invariants=invariants, simulate=simulate,
                     workers=workers or (4 if self.quick else 8), timeout=timeout, seed=self.seed if simulate else None,
                     constraint=constraint, printed_cap=keep)
